@@ -13,22 +13,24 @@ from superrec2.utils.dynamic_programming import (
     Table,
 )
 
+from harness.checks import c16_table
+
 ID = "C16"
 RULE = (
     "histories of Candidate(value, tag) over values {0,1,2,+inf,-inf} and tags {None,a,b}, split into "
     "batches (every composition), for the 2x3 policy pairs, on standalone entries, on cells of 1-3 "
     "dimensional tables (Dict and List dimensions) and through combine(); bounded-exhaustive by length "
     "then random longer ones.  A case is non-trivial when at least two candidates tie for the optimum "
-    "or an improving candidate follows a tagged one; distinct = distinct (kind, policies, history)."
+    "or an improving candidate follows a tagged one; distinct = distinct (kind, policies, history).  "
+    + c16_table.RULE_TABLE
 )
 TRUSTED = [
     "model: lean/SRVerif/Model/Entry.lean (update1 = one loop iteration of Entry.update, Cell.update = EntryProxy.update)",
     "Python truthiness of tags is modelled as `is not None` (tags in scope are None or truthy)",
-]
+] + list(c16_table.TRUSTED_TABLE)
 ASSUMPTIONS = [
-    "Entry.info() (min over tags) and __eq__ are not modelled",
     "values are ints or +-infinity; tags are hashable and truthy",
-]
+] + list(c16_table.ASSUMPTIONS_TABLE)
 OPEN = []
 
 VALS = [0, 1, 2]
@@ -284,6 +286,7 @@ def _add(a, b):
 
 def corpus(ctx, res):
     check_cases(ctx, res, CORPUS)
+    c16_table.corpus_table(ctx, res)
 
 
 def run(ctx, res):
@@ -294,11 +297,14 @@ def run(ctx, res):
             check_cases(ctx, res, batch)
             batch = []
     check_cases(ctx, res, batch)
+    c16_table.run_table(ctx, res)
     res.exhaustive = False
 
 
 def replay(ctx, data):
     case = data["input"]
+    if case.get("kind") in c16_table.KINDS:
+        return c16_table.replay_table(ctx, data)
     io = run_impl(case)
     bad = spec_check(case, io) if case["kind"] != "combine" else None
     return (bad is None, f"impl={io} verdict={'ok' if bad is None else bad}")
